@@ -5,7 +5,27 @@ use glam::*;
 
 pub type Spelled<T> = Vec<(&'static str, T)>;
 /// value lanes, or None for a `checked_` operation that returned None
-pub type VOut = Option<Vec<i128>>;
+/// outcome of ONE spelling of a vector operation, evaluated under its own catch_unwind (an expected panic of one
+/// spelling must not hide what the other spellings do)
+#[derive(Clone, Debug, PartialEq)]
+pub enum VOut {
+    Val(Vec<i128>),
+    None,
+    Panic,
+}
+pub fn gv(f: impl FnOnce() -> Vec<i128>) -> VOut {
+    match std::panic::catch_unwind(std::panic::AssertUnwindSafe(f)) {
+        Ok(v) => VOut::Val(v),
+        Err(_) => VOut::Panic,
+    }
+}
+pub fn go(f: impl FnOnce() -> Option<Vec<i128>>) -> VOut {
+    match std::panic::catch_unwind(std::panic::AssertUnwindSafe(f)) {
+        Ok(Some(v)) => VOut::Val(v),
+        Ok(None) => VOut::None,
+        Err(_) => VOut::Panic,
+    }
+}
 
 #[derive(Clone, Debug, PartialEq)]
 pub enum Out {
@@ -193,28 +213,28 @@ pub trait IV: Copy + core::fmt::Debug + 'static {
 macro_rules! ibin {
     ($a:ident, $b:ident, $op:tt, $opa:tt) => {{
         let mut r = vec![
-            ("a op b", Some(($a $op $b).to_i())),
-            ("&a op b", Some((&$a $op $b).to_i())),
-            ("a op &b", Some(($a $op &$b).to_i())),
-            ("&a op &b", Some((&$a $op &$b).to_i())),
+            ("a op b", gv(|| ($a $op $b).to_i())),
+            ("&a op b", gv(|| (&$a $op $b).to_i())),
+            ("a op &b", gv(|| ($a $op &$b).to_i())),
+            ("&a op &b", gv(|| (&$a $op &$b).to_i())),
         ];
-        let mut t = $a; t $opa $b; r.push(("a op= b", Some(t.to_i())));
-        let mut t = $a; t $opa &$b; r.push(("a op= &b", Some(t.to_i())));
+        r.push(("a op= b", gv(|| { let mut t = $a; t $opa $b; t.to_i() })));
+        r.push(("a op= &b", gv(|| { let mut t = $a; t $opa &$b; t.to_i() })));
         r
     }};
 }
 macro_rules! ibin_noassign {
     ($a:ident, $b:ident, $op:tt) => {{
-        vec![("a op b", Some(($a $op $b).to_i()))]
+        vec![("a op b", gv(|| ($a $op $b).to_i()))]
     }};
 }
 macro_rules! isv {
     ($s:ident, $v:ident, $op:tt) => {{
         vec![
-            ("s op v", Some(($s $op $v).to_i())),
-            ("&s op v", Some((&$s $op $v).to_i())),
-            ("s op &v", Some(($s $op &$v).to_i())),
-            ("&s op &v", Some((&$s $op &$v).to_i())),
+            ("s op v", gv(|| ($s $op $v).to_i())),
+            ("&s op v", gv(|| (&$s $op $v).to_i())),
+            ("s op &v", gv(|| ($s $op &$v).to_i())),
+            ("&s op &v", gv(|| (&$s $op &$v).to_i())),
         ]
     }};
 }
@@ -222,7 +242,7 @@ macro_rules! ishift_by {
     ($x:expr, $c:expr, $op:expr, $r:expr, [$($ct:ident),+]) => {$(
         if let Ok(c) = <$ct>::try_from($c) {
             let x = $x;
-            $r.push((stringify!($ct), Some(if $op == "shl" { (x << c).to_i() } else { (x >> c).to_i() })));
+            $r.push((stringify!($ct), gv(|| if $op == "shl" { (x << c).to_i() } else { (x >> c).to_i() })));
         }
     )+};
 }
@@ -250,21 +270,21 @@ macro_rules! impl_iv {
                     "bitand" => ibin_noassign!(a, b, &),
                     "bitor" => ibin_noassign!(a, b, |),
                     "bitxor" => ibin_noassign!(a, b, ^),
-                    "min" => vec![("method", Some(a.min(b).to_i()))],
-                    "max" => vec![("method", Some(a.max(b).to_i()))],
+                    "min" => vec![("method", gv(|| a.min(b).to_i()))],
+                    "max" => vec![("method", gv(|| a.max(b).to_i()))],
                     "div_euclid" | "rem_euclid" => impl_iv!(@euclid $sign, a, b, op),
-                    "checked_add" => vec![("method", a.checked_add(b).map(|v| v.to_i()))],
-                    "checked_sub" => vec![("method", a.checked_sub(b).map(|v| v.to_i()))],
-                    "checked_mul" => vec![("method", a.checked_mul(b).map(|v| v.to_i()))],
-                    "checked_div" => vec![("method", a.checked_div(b).map(|v| v.to_i()))],
-                    "wrapping_add" => vec![("method", Some(a.wrapping_add(b).to_i()))],
-                    "wrapping_sub" => vec![("method", Some(a.wrapping_sub(b).to_i()))],
-                    "wrapping_mul" => vec![("method", Some(a.wrapping_mul(b).to_i()))],
-                    "wrapping_div" => vec![("method", Some(a.wrapping_div(b).to_i()))],
-                    "saturating_add" => vec![("method", Some(a.saturating_add(b).to_i()))],
-                    "saturating_sub" => vec![("method", Some(a.saturating_sub(b).to_i()))],
-                    "saturating_mul" => vec![("method", Some(a.saturating_mul(b).to_i()))],
-                    "saturating_div" => vec![("method", Some(a.saturating_div(b).to_i()))],
+                    "checked_add" => vec![("method", go(|| a.checked_add(b).map(|v| v.to_i())))],
+                    "checked_sub" => vec![("method", go(|| a.checked_sub(b).map(|v| v.to_i())))],
+                    "checked_mul" => vec![("method", go(|| a.checked_mul(b).map(|v| v.to_i())))],
+                    "checked_div" => vec![("method", go(|| a.checked_div(b).map(|v| v.to_i())))],
+                    "wrapping_add" => vec![("method", gv(|| a.wrapping_add(b).to_i()))],
+                    "wrapping_sub" => vec![("method", gv(|| a.wrapping_sub(b).to_i()))],
+                    "wrapping_mul" => vec![("method", gv(|| a.wrapping_mul(b).to_i()))],
+                    "wrapping_div" => vec![("method", gv(|| a.wrapping_div(b).to_i()))],
+                    "saturating_add" => vec![("method", gv(|| a.saturating_add(b).to_i()))],
+                    "saturating_sub" => vec![("method", gv(|| a.saturating_sub(b).to_i()))],
+                    "saturating_mul" => vec![("method", gv(|| a.saturating_mul(b).to_i()))],
+                    "saturating_div" => vec![("method", gv(|| a.saturating_div(b).to_i()))],
                     _ => vec![],
                 }
             }
@@ -317,15 +337,15 @@ macro_rules! impl_iv {
                 let mut r = vec![];
                 if c.iter().take($N).all(|x| i32::try_from(*x).is_ok()) {
                     let cv = $IV::new($(c[$i] as i32),+);
-                    r.push(("IVec", Some(if op == "shl" { (self << cv).to_i() } else { (self >> cv).to_i() })));
+                    r.push(("IVec", gv(|| if op == "shl" { (self << cv).to_i() } else { (self >> cv).to_i() })));
                 }
                 if c.iter().take($N).all(|x| u32::try_from(*x).is_ok()) {
                     let cv = $UV::new($(c[$i] as u32),+);
-                    r.push(("UVec", Some(if op == "shl" { (self << cv).to_i() } else { (self >> cv).to_i() })));
+                    r.push(("UVec", gv(|| if op == "shl" { (self << cv).to_i() } else { (self >> cv).to_i() })));
                 }
                 r
             }
-            fn clamp_(self, lo: Self, hi: Self) -> VOut { Some(self.clamp(lo, hi).to_i()) }
+            fn clamp_(self, lo: Self, hi: Self) -> VOut { gv(|| self.clamp(lo, hi).to_i()) }
             fn red1(self, op: &str) -> Option<Out> {
                 let a = self;
                 Some(match op {
@@ -352,59 +372,59 @@ macro_rules! impl_iv {
             }
             fn cross_(self, b: Self) -> Option<VOut> { impl_iv!(@cross $N, self, b) }
             fn sum_(vs: &[Self]) -> Spelled<VOut> {
-                vec![("iter().sum()", Some(vs.iter().sum::<$V>().to_i())),
-                     ("copied().sum()", Some(vs.iter().copied().sum::<$V>().to_i()))]
+                vec![("iter().sum()", gv(|| vs.iter().sum::<$V>().to_i())),
+                     ("copied().sum()", gv(|| vs.iter().copied().sum::<$V>().to_i()))]
             }
             fn product_(vs: &[Self]) -> Spelled<VOut> {
-                vec![("iter().product()", Some(vs.iter().product::<$V>().to_i())),
-                     ("copied().product()", Some(vs.iter().copied().product::<$V>().to_i()))]
+                vec![("iter().product()", gv(|| vs.iter().product::<$V>().to_i())),
+                     ("copied().product()", gv(|| vs.iter().copied().product::<$V>().to_i()))]
             }
         }
     };
     (@euclid signed, $a:ident, $b:ident, $op:ident) => {
-        if $op == "div_euclid" { vec![("method", Some($a.div_euclid($b).to_i()))] } else { vec![("method", Some($a.rem_euclid($b).to_i()))] }
+        if $op == "div_euclid" { vec![("method", gv(|| $a.div_euclid($b).to_i()))] } else { vec![("method", gv(|| $a.rem_euclid($b).to_i()))] }
     };
     (@euclid unsigned, $a:ident, $b:ident, $op:ident) => { vec![] };
     (@has_mixed none) => { false };
     (@has_mixed $o:ident) => { true };
     (@un signed, $s:ident, $op:ident) => {
         match $op {
-            "neg" => vec![("-a", Some((-$s).to_i())), ("-&a", Some((-&$s).to_i()))],
-            "not" => vec![("!a", Some((!$s).to_i()))],
-            "abs" => vec![("method", Some($s.abs().to_i()))],
-            "signum" => vec![("method", Some($s.signum().to_i()))],
+            "neg" => vec![("-a", gv(|| (-$s).to_i())), ("-&a", gv(|| (-&$s).to_i()))],
+            "not" => vec![("!a", gv(|| (!$s).to_i()))],
+            "abs" => vec![("method", gv(|| $s.abs().to_i()))],
+            "signum" => vec![("method", gv(|| $s.signum().to_i()))],
             _ => vec![],
         }
     };
     (@un unsigned, $s:ident, $op:ident) => {
         match $op {
-            "not" => vec![("!a", Some((!$s).to_i()))],
+            "not" => vec![("!a", gv(|| (!$s).to_i()))],
             _ => vec![],
         }
     };
     (@dist2 signed, $a:ident, $b:ident) => { pv(|| $a.distance_squared($b) as i128) };
     (@dist2 unsigned, $a:ident, $b:ident) => { return None };
-    (@cross 3, $a:ident, $b:ident) => { Some(Some($a.cross($b).to_i())) };
+    (@cross 3, $a:ident, $b:ident) => { Some(gv(|| $a.cross($b).to_i())) };
     (@cross $n:literal, $a:ident, $b:ident) => { None };
     (@mixed none, $sign:ident, $s:ident, $o:ident, $op:ident, [$($i:literal),+]) => { vec![] };
     (@mixed $O:ident, signed, $s:ident, $o:ident, $op:ident, [$($i:literal),+]) => {{
         let b = $O::new($($o[$i] as _),+);
         match $op {
-            "checked_add_unsigned" => vec![("method", $s.checked_add_unsigned(b).map(|v| v.to_i()))],
-            "checked_sub_unsigned" => vec![("method", $s.checked_sub_unsigned(b).map(|v| v.to_i()))],
-            "wrapping_add_unsigned" => vec![("method", Some($s.wrapping_add_unsigned(b).to_i()))],
-            "wrapping_sub_unsigned" => vec![("method", Some($s.wrapping_sub_unsigned(b).to_i()))],
-            "saturating_add_unsigned" => vec![("method", Some($s.saturating_add_unsigned(b).to_i()))],
-            "saturating_sub_unsigned" => vec![("method", Some($s.saturating_sub_unsigned(b).to_i()))],
+            "checked_add_unsigned" => vec![("method", go(|| $s.checked_add_unsigned(b).map(|v| v.to_i())))],
+            "checked_sub_unsigned" => vec![("method", go(|| $s.checked_sub_unsigned(b).map(|v| v.to_i())))],
+            "wrapping_add_unsigned" => vec![("method", gv(|| $s.wrapping_add_unsigned(b).to_i()))],
+            "wrapping_sub_unsigned" => vec![("method", gv(|| $s.wrapping_sub_unsigned(b).to_i()))],
+            "saturating_add_unsigned" => vec![("method", gv(|| $s.saturating_add_unsigned(b).to_i()))],
+            "saturating_sub_unsigned" => vec![("method", gv(|| $s.saturating_sub_unsigned(b).to_i()))],
             _ => vec![],
         }
     }};
     (@mixed $O:ident, unsigned, $s:ident, $o:ident, $op:ident, [$($i:literal),+]) => {{
         let b = $O::new($($o[$i] as _),+);
         match $op {
-            "checked_add_signed" => vec![("method", $s.checked_add_signed(b).map(|v| v.to_i()))],
-            "wrapping_add_signed" => vec![("method", Some($s.wrapping_add_signed(b).to_i()))],
-            "saturating_add_signed" => vec![("method", Some($s.saturating_add_signed(b).to_i()))],
+            "checked_add_signed" => vec![("method", go(|| $s.checked_add_signed(b).map(|v| v.to_i())))],
+            "wrapping_add_signed" => vec![("method", gv(|| $s.wrapping_add_signed(b).to_i()))],
+            "saturating_add_signed" => vec![("method", gv(|| $s.saturating_add_signed(b).to_i()))],
             _ => vec![],
         }
     }};
